@@ -9,6 +9,9 @@ import IcingaProofs.C20.JsonLemmas
 import IcingaProofs.C20.MessageLemmas
 import IcingaProofs.C20.DictLemmas
 import IcingaProofs.C20.Utf8Lemmas
+import IcingaProofs.C20.StateLemmas
+import IcingaProofs.C20.OverLimitLemmas
+import IcingaProofs.C20.NumberLemmas
 import IcingaModel.C20.SpecText
 import IcingaModel.C20.Conn
 import IcingaProofs.Gen.Limits
@@ -1052,5 +1055,193 @@ example : hostileSpec [49, 58, 97, 59] true [.need, .hang] = some .readerEnds :=
 example : hostileSpec [49, 58, 97, 59] true [.need, .need] = some .readerEnds := by decide
 example : hostileSpec [49, 58, 97, 44] true [.item [97, 98, 99], .eof] = some .itemsInside := by decide
 example : hostileSpec [49, 58, 97, 59] true (sobsOfRun (nsReadAll none [[49, 58], [97, 59]])) = none := by decide
+
+
+/-! ## The state file as a whole: DumpObjects → file → RestoreObjects (any record sizes, any chunking) -/
+
+/-- **tls_alloc_meets_spec.**  "… or allocating beyond the declared limits", as the executable clause the driver evaluates
+    on the allocation observed in the real reader: on EVERY byte stream the payload buffer the TLS reader model allocates
+    satisfies `tlsAllocSpec` — at most the connection's limit, without a limit less than 10^9. -/
+theorem tls_alloc_meets_spec (max : Option Nat) (bs : Bytes) :
+    tlsAllocSpec max (nsReadTls max bs).alloc = none := by
+  obtain ⟨h9, hm⟩ := allocation_bounded max bs
+  unfold tlsAllocSpec
+  cases max with
+  | none =>
+    simp only [formatMaxLen, allocSlack]
+    exact if_pos (by omega)
+  | some m =>
+    have := hm m rfl
+    simp only [allocSlack]
+    exact if_pos (by omega)
+
+example : tlsAllocSpec (some 1048576) 999999999 = some .tlsAllocBounded := by decide
+example : tlsAllocSpec (some 1048576) 1048577 = none := by decide
+example : (nsReadTls (some 10) (asciiBytes "5:hello,")).alloc = 5 := by decide +kernel
+
+/-- **restore_reads_all_frames.**  The read loop of RestoreObjects (no maximum length) hands over exactly the records of a
+    well-framed file, whatever their sizes (below 10^9) and however the file arrives in chunks — it never throws on one. -/
+theorem restore_reads_all_frames (ps : List Bytes) (chunks : List Bytes) (hps : ∀ p ∈ ps, p.length < 10 ^ 9)
+    (hc : chunks.flatten = nsEncodeAll ps) : restoreItems chunks = some ps := by
+  obtain ⟨hi, hf⟩ := frames_split_regardless_of_chunking none ps chunks
+    (fun p hp => ⟨hps p hp, rfl⟩) hc
+  simp [restoreItems, hi, hf]
+
+/-- **state_model_meets_spec.**  The state-file clause `stateSpec` as one statement over ALL files and chunkings: a file of
+    canonical frames only is never refused, and when exactly one record is the applicable one its value arrives in the
+    object, whatever the other records are (they do not touch the object: hypothesis `hother`). -/
+theorem state_model_meets_spec (apply : Bytes → Option Nat) (good : Bytes) (want init : Nat) (file : Bytes) (chunks : List Bytes)
+    (hc : chunks.flatten = file) (hgood : apply good = some want) (hother : ∀ p, p ≠ good → apply p = none) :
+    stateSpec good want file (stateObsM apply init chunks) = none := by
+  unfold stateSpec
+  cases hs : specFramesAll (file.length + 1) file with
+  | none => rfl
+  | some ps =>
+    obtain ⟨hfile, hps⟩ := specFramesAll_sound _ _ _ hs
+    have hitems := restore_reads_all_frames ps chunks hps (by rw [hc, hfile])
+    simp only [stateObsM, hitems, filterMap_apply_good apply good want hgood hother ps]
+    by_cases h1 : (ps.filter (· == good)).length = 1
+    · simp [h1]
+    · cases (List.replicate (ps.filter (· == good)).length want).getLast? <;> simp [h1]
+
+example : stateObsM (fun p => if p = asciiBytes "{}" then some 3 else none) 1 [asciiBytes "2:{},4:nu", asciiBytes "ll,"] = .ok 3 := by decide +kernel
+example : stateObsM (fun _ => none) 1 [asciiBytes "2:{},4:nu", asciiBytes "ll;"] = .err := by decide +kernel
+example : stateFileSpec (asciiBytes "2:{}") = some .writerFormat := by decide +kernel
+example : stateFileSpec (asciiBytes "2:{},0:,") = none := by decide +kernel
+
+/-- Every record DumpObjects wrote is decoded by RestoreObject to the dictionary it was made from. -/
+theorem restore_decodes_dumped {N : Type} (c : NumCodec N) (hc : c.Lawful) : ∀ (recs : List (List (List Char × JValue N))),
+    (∀ kvs ∈ recs, depth (.obj kvs : JValue N) ≤ jsonMaxNestingDepth) →
+    (recs.map (fun kvs => jsonEncode c (.obj kvs))).filterMap (fun p => asDict (icingaDecodeL c p))
+      = recs.map (fun kvs => canonV (.obj kvs)) := by
+  intro recs
+  induction recs with
+  | nil => intro _; rfl
+  | cons kvs r ih =>
+    intro hrecs
+    have h1 := (json_decode_encode_any c hc (.obj kvs) (hrecs kvs (by simp))).1
+    have h2 : canonV (JValue.obj kvs : JValue N) = .obj (dictOfMembers (canonMembers kvs)) := by simp [canonV]
+    have h3 : asDict (some (JValue.obj (dictOfMembers (canonMembers kvs)) : JValue N)) = some (.obj (dictOfMembers (canonMembers kvs))) := rfl
+    simp only [List.map_cons, List.filterMap_cons, h1]
+    rw [h2, h3]
+    simp only
+    rw [ih (fun k hk => hrecs k (by simp [hk]))]
+
+/-- **state_file_roundtrip.**  "Every value placed in the state file is decoded by the receiver to an equal value … regardless
+    of how the bytes arrive in chunks": for every lawful number codec, every list of records (dictionaries of any keys and
+    values, nesting within the decoder's limit, encoded size below 10^9 — no other bound on the size of a record) and every
+    chunking of the file DumpObjects writes for them, RestoreObjects hands exactly those dictionaries (as Icinga holds
+    them: sorted maps) to the lookup, in order, none refused, none lost. -/
+theorem state_file_roundtrip {N : Type} (c : NumCodec N) (hc : c.Lawful) (recs : List (List (List Char × JValue N)))
+    (chunks : List Bytes)
+    (hrecs : ∀ kvs ∈ recs, depth (.obj kvs : JValue N) ≤ jsonMaxNestingDepth ∧ (jsonEncode c (.obj kvs)).length < 10 ^ 9)
+    (hch : chunks.flatten = dumpObjects c recs) :
+    restoreObjectsM c chunks = some (recs.map (fun kvs => canonV (.obj kvs))) := by
+  have hitems := restore_reads_all_frames (recs.map (fun kvs => jsonEncode c (.obj kvs))) chunks
+    (by intro p hp; simp at hp; obtain ⟨kvs, hk, rfl⟩ := hp; exact (hrecs kvs hk).2) hch
+  simp only [restoreObjectsM, hitems, Option.map_some]
+  rw [restore_decodes_dumped c hc recs (fun k hk => (hrecs k hk).1)]
+
+example : (restoreObjectsM intCodec [asciiBytes "7:{\"a\":", asciiBytes "1},2:{},4:null,"]).map (·.length) = some 2 := by decide +kernel
+example : dumpObjects intCodec [[("a".toList, .num 1)], []] = asciiBytes "7:{\"a\":1},2:{}," := by decide +kernel
+example : stateRoundtripSpec [(⟨2, 5, 5, ()⟩ : ObjState Unit)] none = some .stateRoundtrip := by decide
+example : stateRoundtripSpec [(⟨2, 70000, 70000, ()⟩ : ObjState Unit)] (some [⟨1, 0, 0, ()⟩]) = some .stateRoundtrip := by decide
+example : stateRoundtripSpec [(⟨2, 5, 5, ()⟩ : ObjState Unit)] (some [⟨2, 5, 5, ()⟩]) = none := by decide
+
+
+/-! ## JsonEncoder::NumberFloat: which numbers go out as integer literals (IcingaModel/C20/Number.lean) -/
+
+/-- **number_float_int_path.**  Whenever NumberFloat takes its integer path for a double (given by its bit pattern), the
+    integer it prints IS the double's value (m·2^e2 = |n|·2^d2 for the double's mantissa/exponent decomposition), lies
+    in [-2^63, 2^64) — the range in which the C++ conversions are defined —, and the literal it emits is read back by the
+    decoder as exactly that integer: the integer path never changes a number.  (All other finite doubles go through the
+    floating-point printer, the number codec's assumed law.) -/
+theorem number_float_int_path (bits : Nat) (n : Int) (h : numberFloatInt bits = some n) :
+    (b64Mag bits).1 * 2 ^ (b64Mag bits).2.1 = n.natAbs * 2 ^ (b64Mag bits).2.2
+    ∧ -(2 ^ 63 : Int) ≤ n ∧ n < 2 ^ 64
+    ∧ numberFloatText bits = some (intCodec.fmt n) ∧ intCodec.parse (intCodec.fmt n) = some n := by
+  have hr := int_codec_lawful.roundtrip n
+  unfold numberFloatInt at h
+  cases hm : b64NatMag bits with
+  | none => simp [hm] at h
+  | some k =>
+    have hex := b64NatMag_exact bits k hm
+    simp only [hm] at h
+    split at h
+    · split at h
+      · simp only [Option.some.injEq] at h
+        subst h
+        refine ⟨by simpa using hex, by omega, by omega, ?_, hr⟩
+        simp [numberFloatText, numberFloatInt, *]
+      · simp at h
+    · split at h
+      · simp only [Option.some.injEq] at h
+        subst h
+        refine ⟨by simpa using hex, by omega, by omega, ?_, hr⟩
+        simp [numberFloatText, numberFloatInt, *]
+      · simp at h
+
+example : numberFloatInt 0x3ff8000000000000 = none := by decide +kernel          -- 1.5: the floating-point printer
+example : numberFloatInt 0x8000000000000000 = some 0 := by decide +kernel        -- -0.0 prints as 0
+example : numberFloatInt 0xc3e0000000000000 = some (-9223372036854775808) := by decide +kernel
+example : numberFloatInt 0x43f0000000000000 = none := by decide +kernel          -- 2^64: out of range, not an integer literal
+example : numberFloatInt 0x4415af1d78b58c40 = none := by decide +kernel          -- 1e20
+example : numberFloatText 0x4340000000000001 = some (asciiBytes "9007199254740994") := by decide +kernel
+
+
+/-! ## Buffered reader with a limit: the oversized frame (closes the over-limit branch of `framedSpec`) -/
+
+/-- **frames_until_over_limit.**  A stream of valid frames followed by a frame whose declared length is over the caller's
+    limit (and then anything at all): under EVERY chunking — also when a cut falls inside the oversized frame's length
+    field — the read loop returns exactly the frames before it and then ends in the limit error; nothing of the
+    oversized frame or behind it is ever returned. -/
+theorem frames_until_over_limit (max : Option Nat) (ps : List Bytes) (q tail : Bytes) (chunks : List Bytes)
+    (hps : ∀ p ∈ ps, p.length < 10 ^ 9 ∧ bufLimitExceeded max p.length = false)
+    (hq : q.length < 10 ^ 9 ∧ bufLimitExceeded max q.length = true)
+    (hc : chunks.flatten = nsEncodeAll ps ++ (nsEncode q ++ tail)) :
+    (nsReadAll max chunks).items = ps ∧ (nsReadAll max chunks).final = .error .maxExceeded := by
+  have he : nsEncode q ++ tail = natDigits q.length ++ colon :: (q ++ comma :: tail) := by simp [nsEncode]
+  have := run_over max (runFuel {} chunks) [] true chunks [] 0 ps q.length (q ++ comma :: tail) hps hq.1 hq.2
+    (by rw [← he]; simpa using hc)
+    (by intro _; exact ⟨by intro p ps' _; have := nsEncode_length_ge p; simp; omega, by intro _; simp⟩)
+    (by simp [runFuel])
+  simpa [nsReadAll] using this
+
+/-- **framed_model_meets_spec_full.**  `framed_model_meets_spec` without its hypothesis "every payload is within the
+    limit": for every limit, EVERY list of payloads (each below 10^9 bytes) and every chunking of the stream the writer
+    produces, the model's read loop satisfies the executable specification `framedSpec` — all payloads then end-of-file
+    when all are within the limit, otherwise exactly the payloads before the first oversized one and then an error. -/
+theorem framed_model_meets_spec_full (max : Option Nat) (ps : List Bytes) (chunks : List Bytes)
+    (hps : ∀ p ∈ ps, p.length < 10 ^ 9) (hc : chunks.flatten = nsEncodeAll ps) :
+    framedSpec max ps (nsEncodeAll ps) true (sobsOfRun (nsReadAll max chunks)) = none := by
+  rcases acceptedPrefix_split max ps hps with hall | ⟨a, q, r, hsplit, ha, hq, hacc⟩
+  · exact framed_model_meets_spec max ps chunks hall hc
+  · have ha' : ∀ p ∈ a, p.length < 10 ^ 9 ∧ bufLimitExceeded max p.length = false := by
+      intro p hp
+      have := ha p hp
+      simp [bufWithin] at this
+      exact ⟨this.2, this.1⟩
+    have henc : nsEncodeAll ps = nsEncodeAll a ++ (nsEncode q ++ nsEncodeAll r) := by
+      rw [hsplit]
+      clear hsplit hacc ha ha' hc hps
+      induction a with
+      | nil => simp [nsEncodeAll]
+      | cons x xs ih => simp [nsEncodeAll, ih]
+    obtain ⟨hi, hf⟩ := frames_until_over_limit max a q (nsEncodeAll r) chunks ha'
+      ⟨hps q (by rw [hsplit]; simp), hq⟩ (by rw [hc, henc])
+    have hobs : sobsOfRun (nsReadAll max chunks) = a.map SObs.item ++ [SObs.err] := by
+      simp [sobsOfRun, hi, hf]
+    rw [hobs]
+    unfold framedSpec
+    have h2 := itemsOf_items a [SObs.err]
+    have h5 : (a.map SObs.item ++ [SObs.err]).getLast? = some SObs.err := by simp
+    simp [hacc, h2, itemsOf, h5]
+
+example : framedSpec (some 3) [[104, 105], [1, 2, 3, 4, 5], [7]] (nsEncodeAll [[104, 105], [1, 2, 3, 4, 5], [7]]) true
+    (sobsOfRun (nsReadAll (some 3) [nsEncodeAll [[104, 105], [1, 2, 3, 4, 5], [7]]])) = none := by decide
+example : (nsReadAll (some 3) [[50, 58, 104, 105, 44, 53], [58, 1, 2]]).final = .error .maxExceeded := by decide
+example : framedSpec (some 3) [[104, 105], [1, 2, 3, 4, 5]] (nsEncodeAll [[104, 105], [1, 2, 3, 4, 5]]) true
+    [.item [104, 105], .item [1, 2, 3, 4, 5], .eof] = some .framesSplit := by decide
+
 
 end Icinga.C20
